@@ -230,16 +230,60 @@ async fn run(plan: C08Plan) -> RunOutcome {
         }
         w
     };
+    // A third of the runs restart the manager in the middle of the deliveries: what was reported before
+    // the restart is on disk (counts in the event records) and is not reported again, the remaining
+    // deliveries go to the re-initialised manager, and the completeness check below applies to it.
+    let mid_restart: Option<(usize, bool)> = if plan.ops.len() >= 2 && plan.seed % 3 == 0 { Some((((plan.seed / 3) % plan.ops.len() as u64) as usize, (plan.seed / 7) % 2 == 0)) } else { None };
+    let mut mid_restarts = 0u64;
+    // highest count written into the event records so far (a transaction's count is written for all its versions)
+    let mut on_disk: BTreeMap<u64, u8> = BTreeMap::new();
     for (di, d) in plan.ops.iter().enumerate() {
         let Some(s) = stored.get(d.txn) else { continue };
         if plan.step_ms > 0 {
             sim.advance(plan.step_ms * 1_000_000);
+        }
+        if let Some((at, clean)) = mid_restart {
+            if at == di {
+                if clean {
+                    let _ = manager.persist_bucket_state(bucket).await;
+                }
+                drop(manager);
+                // re-initialisation reads the counts in the event records: they count as reported
+                for (v, c) in &on_disk {
+                    let e = max_reported.entry(*v).or_insert(0);
+                    *e = (*e).max(*c);
+                }
+                manager = BucketConfirmationManager::new(dir.clone(), plan.buckets, plan.rf, assigned.clone());
+                mid_restarts += 1;
+                evals += 1;
+                let label = if clean { "mid-run-clean" } else { "mid-run-crash" };
+                match manager.initialize(&db).await {
+                    Ok(()) => {
+                        let w = manager.get_watermark(plan.partition).map(|w| w.get()).unwrap_or(0);
+                        chain.push_u64(w);
+                        if w < last_watermark {
+                            violation(&mut sigs, "watermark-lower-after-restart", "initialize", label, format!("watermark {w} after a restart before delivery {di}, it was {last_watermark} before"));
+                        }
+                        let bound = true_prefix(&max_reported);
+                        if w > bound {
+                            violation(&mut sigs, "watermark-exceeds-confirmed-prefix", "initialize", label, format!("watermark {w} after a restart before delivery {di} but the quorum-confirmed prefix is {bound}"));
+                        }
+                        last_watermark = last_watermark.max(w);
+                        *observed.borrow_mut() = last_watermark;
+                    }
+                    Err(e) => violation(&mut sigs, "initialize-fails", "initialize", label, e.to_string()),
+                }
+            }
         }
         // the on-disk count is written before the update is reported (ConfirmTransaction's order)
         {
             if let Err(e) = db.set_confirmations(plan.partition, s.offsets.clone(), s.id, d.count).await {
                 violation(&mut sigs, "harness", "set_confirmations", "error", e.to_string());
             }
+        }
+        for v in &s.versions {
+            let e = on_disk.entry(*v).or_insert(0);
+            *e = (*e).max(d.count);
         }
         let versions: Vec<u64> = match d.only_version {
             Some(i) => s.versions.get(i).copied().into_iter().collect(),
@@ -275,7 +319,7 @@ async fn run(plan: C08Plan) -> RunOutcome {
     let expect = true_prefix(&max_reported);
     evals += 1;
     if last_watermark != expect {
-        violation(&mut sigs, "watermark-stuck", "update_confirmation", if stale_after_higher > 0 { "stale-lower-count-after-higher" } else { "in-order-counts" }, format!("all confirmations reported: the longest quorum-confirmed prefix is {expect} of {total_versions} versions but the watermark is {last_watermark}"));
+        violation(&mut sigs, "watermark-stuck", "update_confirmation", if mid_restarts > 0 { "after-mid-run-restart" } else if stale_after_higher > 0 { "stale-lower-count-after-higher" } else { "in-order-counts" }, format!("all confirmations reported: the longest quorum-confirmed prefix is {expect} of {total_versions} versions but the watermark is {last_watermark}"));
     }
     // --- restart: clean (force a persist first) and from every crash snapshot --------------------
     let mut crash_states = 0u64;
@@ -339,6 +383,7 @@ async fn run(plan: C08Plan) -> RunOutcome {
     out.sim_nanos = sim.mono.load(std::sync::atomic::Ordering::SeqCst);
     out.faults.insert("stale_lower_count_after_higher".into(), stale_after_higher);
     out.faults.insert("crash_states_restarted".into(), crash_states);
+    out.faults.insert("restart_in_the_middle_of_deliveries".into(), mid_restarts);
     out.probes.insert("persist_hook_snapshots".into(), *snap_no.borrow());
     let between_renames = snapshots.borrow().iter().filter(|s| s.step == 3).count() as u64;
     out.probes.insert("snapshots_between_the_two_renames".into(), between_renames);
